@@ -156,8 +156,15 @@ end cls
 
 /-! ## the specification: FIFO queue / insertion-ordered set with FIFO pull -/
 
+/-- what a preloaded object holds, specification side: the list / the ordered set of the preload -/
+def initS (kind : QKind) (pre : List Bytes) : List Bytes :=
+  match kind with
+  | .durq => pre
+  | .dusq => addAll [] pre
+
 def specQ {α : Type} [DecidableEq α] (cls : Bytes → α) (kind : QKind) (l : List Bytes) : HOp → List Bytes × QRes
-  | .reopen => (l, .bool true)
+  | .reopen pre => (if l = [] then initS kind pre else l, .bool true)
+  | .op (.sync force) => (l, if force then .bool true else .val none)
   | .op (.push v) => match kind with
     | .durq => (l ++ [v], .bool true)
     | .dusq => (addOne l v, .bool true)
@@ -178,6 +185,7 @@ def specQ {α : Type} [DecidableEq α] (cls : Bytes → α) (kind : QKind) (l : 
 def hweight : HOp → Nat
   | .op (.push _) => 1
   | .op (.extend vs) => vs.length
+  | .reopen pre => pre.length
   | _ => 0
 
 def htotal : List HOp → Nat
@@ -218,12 +226,60 @@ theorem QInv.step {K : Bytes → Prop} {k : Bytes} {kind : QKind} {n n' : Nat} {
     (hnd : kind = .dusq → mem'.Nodup) : QInv K k kind n' db' mem' τ :=
   ⟨rel_self_of_post hq.rel hk hp hi, hm, hnd, fun k' h => by rw [hp.absIo_other h]; exact hq.others k' h⟩
 
+theorem QInv.mono {K : Bytes → Prop} {k : Bytes} {kind : QKind} {n n' : Nat} {db : Db} {mem : List Bytes} {τ : St}
+    (hq : QInv K k kind n db mem τ) (h : n ≤ n') : QInv K k kind n' db mem τ :=
+  ⟨hq.rel.mono h, hq.mirror, hq.nodup, hq.others⟩
+
+theorem addAll_nil_length_le (pre : List Bytes) : (addAll [] pre).length ≤ pre.length := by
+  rw [addAll_eq, List.nil_append, ← dedup_eq_dd]
+  exact Nat.le_trans (List.length_filter_le _ _) (dedup_length_le pre)
+
 section step
 variable {α : Type} [DecidableEq α] (cls : Bytes → α)
 
+theorem initMem_eq {kind : QKind} (hinj : kind = .dusq → ∀ a b, cls a = cls b → a = b) (pre : List Bytes) :
+    initMem cls kind pre = initS kind pre := by
+  cases kind with
+  | durq => rfl
+  | dusq => simp [initMem, initS, osetUpdate_eq cls (hinj rfl)]
+
+/-- THE SYNC BODY for an object holding `m` (fresh, preloaded or live): a non-empty durable copy wins, an empty one takes `m` -/
+theorem syncBody_spec {kind : QKind} (hinj : kind = .dusq → ∀ a b, cls a = cls b → a = b)
+    {K : Bytes → Prop} {k : Bytes} (hk : K k) {B : Nat} (hE : ExactAt K k B) (hB : B < 16 ^ W) (hvk : validKey (suffix k 0) = true)
+    {n : Nat} {db : Db} {cur : List Bytes} {τ : St} (hq : QInv K k kind n db cur τ) (m : List Bytes) (hmn : kind = .dusq → m.Nodup)
+    (hn : n ≤ B) (hwB : cur = [] → n + m.length ≤ B) :
+    ∃ db', syncBody cls kind k db m = (db', .ok ⟨if cur = [] then m else cur, false⟩) ∧
+      QInv K k kind (n + (if cur = [] then m.length else 0)) db' (if cur = [] then m else cur) τ := by
+  have hr := hq.rel
+  have hinv := hr.inv
+  have hnc := hr.noChild hE hB hn
+  have hm := hq.mirror
+  have hc := cntIoVals_spec hinv hnc
+  have hg := getIoVals_spec hinv hnc
+  by_cases hz : cur = []
+  · simp only [hz, ↓reduceIte]
+    cases kind with
+    | durq =>
+      obtain ⟨db', ents, h1, h2, h3, h4⟩ := pinIoVals_spec hinv hnc hvk hr.ions m (by have := hwB hz; omega)
+      exact ⟨db', by simp [syncBody, hc, hm, hz, h1], hq.step hk h2 h4 h3 (fun h => by cases h)⟩
+    | dusq =>
+      obtain ⟨db', ents, h1, h2, h3, h4⟩ := pinIoSetVals_spec hinv hnc hvk hr.ions m (by have := hwB hz; omega)
+      have hd : dedup m = m := by rw [dedup_eq_dd, dd_of_nodup (hmn rfl)]
+      exact ⟨db', by simp [syncBody, hc, hm, hz, h1], hq.step hk h2 h4 (by rw [h3, hd]) hmn⟩
+  · have hlen : cur.length ≠ 0 := by simpa using hz
+    simp only [hz, ↓reduceIte, Nat.add_zero]
+    cases kind with
+    | durq => exact ⟨db, by simp [syncBody, hc, hg, hm, hlen], hq⟩
+    | dusq =>
+      have hnd := hq.nodup rfl
+      have : osetUpdate cls [] cur = cur := by
+        rw [osetUpdate_eq cls (hinj rfl), addAll_eq]; simp [dd_of_nodup hnd]
+      exact ⟨db, by simp [syncBody, hc, hg, hm, hlen, this], hq⟩
+
 theorem hstep_refines {kind : QKind} (hinj : kind = .dusq → ∀ a b, cls a = cls b → a = b)
     {K : Bytes → Prop} {k : Bytes} (hk : K k) {B : Nat} (hE : ExactAt K k B) (hB : B < 16 ^ W) (hvk : validKey (suffix k 0) = true)
-    {n : Nat} {db : Db} {q : Q} {τ : St} (hq : QInv K k kind n db q.mem τ) (o : HOp) (hwB : n + hweight o ≤ B) :
+    {n : Nat} {db : Db} {q : Q} {τ : St} (hq : QInv K k kind n db q.mem τ) (hst : q.stale = false) (o : HOp)
+    (hwB : n + hweight o ≤ B) :
     ∃ db' q', hstep cls kind k db q o = (db', q', (specQ cls kind q.mem o).2) ∧ q'.mem = (specQ cls kind q.mem o).1 ∧
       QInv K k kind (n + hweight o) db' q'.mem τ := by
   have hw : n + hweight o ≤ 16 ^ W := by omega
@@ -232,33 +288,16 @@ theorem hstep_refines {kind : QKind} (hinj : kind = .dusq → ∀ a b, cls a = c
   have hnc := hr.noChild hE hB (by omega)
   have hm := hq.mirror
   cases o with
-  | reopen =>
-    have hc := cntIoVals_spec hinv hnc
-    have hg := getIoVals_spec hinv hnc
-    by_cases hz : q.mem = []
-    · -- empty: pin the empty container
-      cases kind with
-      | durq =>
-        obtain ⟨db', ents, h1, h2, h3, h4⟩ := pinIoVals_spec hinv hnc hvk hr.ions [] hw
-        refine ⟨db', ⟨[], false⟩, ?_, by simp [specQ, hz], ?_⟩
-        · simp [hstep, inject, hc, hm, hz, h1, specQ]
-        · exact hq.step hk h2 h4 (by simp [h3]) (fun h => by cases h)
-      | dusq =>
-        obtain ⟨db', ents, h1, h2, h3, h4⟩ := pinIoSetVals_spec hinv hnc hvk hr.ions [] hw
-        refine ⟨db', ⟨[], false⟩, ?_, by simp [specQ, hz], ?_⟩
-        · simp [hstep, inject, hc, hm, hz, h1, specQ]
-        · exact hq.step hk h2 h4 (by simp [h3, dedup, dedupAcc]) (fun _ => List.nodup_nil)
-    · have hlen : q.mem.length ≠ 0 := by simpa using hz
-      cases kind with
-      | durq =>
-        refine ⟨db, ⟨q.mem, false⟩, ?_, by simp [specQ], ⟨hr, hm, (fun h => by cases h), hq.others⟩⟩
-        simp [hstep, inject, hc, hg, hm, hlen, specQ]
-      | dusq =>
-        have hnd := hq.nodup rfl
-        have : osetUpdate cls [] q.mem = q.mem := by
-          rw [osetUpdate_eq cls (hinj rfl), addAll_eq]; simp [dd_of_nodup hnd]
-        refine ⟨db, ⟨q.mem, false⟩, ?_, by simp [specQ], ⟨hr, hm, fun _ => hnd, hq.others⟩⟩
-        simp [hstep, inject, hc, hg, hm, hlen, specQ, this]
+  | reopen pre =>
+    have hlen := addAll_nil_length_le pre
+    have hml : (initS kind pre).length ≤ pre.length := by cases kind <;> simp [initS, hlen]
+    have hmn : kind = .dusq → (initS kind pre).Nodup := by
+      intro h; subst h; exact addAll_nodup pre List.nodup_nil
+    simp only [hweight] at hwB
+    obtain ⟨db', h1, h2⟩ := syncBody_spec cls hinj hk hE hB hvk hq (initS kind pre) hmn (by omega) (fun _ => by omega)
+    refine ⟨db', ⟨if q.mem = [] then initS kind pre else q.mem, false⟩, ?_, by simp [specQ], h2.mono ?_⟩
+    · simp only [hstep, inject, initMem_eq cls hinj, h1, specQ]
+    · simp only [hweight]; split <;> omega
   | op o =>
     cases o with
     | push v =>
@@ -385,17 +424,70 @@ theorem hstep_refines {kind : QKind} (hinj : kind = .dusq → ∀ a b, cls a = c
       cases kind with
       | durq => exact ⟨db, q, by simp [hstep, qstep, specQ], by simp [specQ], hr, hm, hq.nodup, hq.others⟩
       | dusq => exact ⟨db, q, by simp [hstep, qstep, specQ], by simp [specQ], hr, hm, hq.nodup, hq.others⟩
+    | sync force =>
+      cases force with
+      | false => exact ⟨db, q, by simp [hstep, qstep, hst, specQ], by simp [specQ], hr, hm, hq.nodup, hq.others⟩
+      | true =>
+        obtain ⟨db', h1, h2⟩ := syncBody_spec cls hinj hk hE hB hvk hq q.mem hq.nodup (by omega)
+          (fun hz => by rw [hz]; simp; omega)
+        have hsame : (if q.mem = [] then q.mem else q.mem) = q.mem := by split <;> rfl
+        rw [hsame] at h1 h2
+        refine ⟨db', ⟨q.mem, false⟩, by simp [hstep, qstep, hst, h1, specQ], by simp [specQ], h2.mono ?_⟩
+        split <;> simp_all [hweight]
+
+theorem syncBody_stale (kind : QKind) (k : Bytes) (db : Db) (m : List Bytes) {db' : Db} {q' : Q}
+    (h : syncBody cls kind k db m = (db', .ok q')) : q'.stale = false := by
+  unfold syncBody at h
+  split at h
+  · cases h
+  · split at h
+    · split at h
+      · cases h
+      · simp only [Prod.mk.injEq, Except.ok.injEq] at h; rw [← h.2]
+    · split at h
+      · simp only [Prod.mk.injEq, Except.ok.injEq] at h; rw [← h.2]
+      · cases h
+
+/-- a queue that is in sync stays flagged in sync -/
+theorem hstep_stale (kind : QKind) (k : Bytes) (db : Db) (q : Q) (o : HOp) (hst : q.stale = false) :
+    (hstep cls kind k db q o).2.1.stale = false := by
+  cases o with
+  | reopen pre =>
+    simp only [hstep, inject]
+    cases h : syncBody cls kind k db (initMem cls kind pre) with
+    | mk d r => cases r with
+      | error x => exact hst
+      | ok q' => exact syncBody_stale cls kind k db _ h
+  | op o =>
+    cases o with
+    | sync force =>
+      simp only [hstep, qstep]
+      split
+      · cases h : syncBody cls kind k db q.mem with
+        | mk d r => cases r with
+          | error x => exact hst
+          | ok q' => exact syncBody_stale cls kind k db _ h
+      · exact hst
+    | pull e =>
+      simp only [hstep, qstep]
+      cases q.mem <;> simp [hst]
+    | push v => cases kind <;> simp only [hstep, qstep] <;> (repeat' split) <;> simp [hst]
+    | extend vs => cases kind <;> simp only [hstep, qstep] <;> (repeat' split) <;> simp [hst]
+    | clear => simp only [hstep, qstep]; (repeat' split) <;> simp [hst]
+    | remove v => cases kind <;> simp only [hstep, qstep] <;> (repeat' split) <;> simp [hst]
+    | count v => cases kind <;> simp [hstep, qstep, hst]
 
 theorem hrun_refines {kind : QKind} (hinj : kind = .dusq → ∀ a b, cls a = cls b → a = b)
     {K : Bytes → Prop} {k : Bytes} (hk : K k) {B : Nat} (hE : ExactAt K k B) (hB : B < 16 ^ W) (hvk : validKey (suffix k 0) = true)
     {τ : St} :
-    ∀ (os : List HOp) (n : Nat) (db : Db) (q : Q), QInv K k kind n db q.mem τ → n + htotal os ≤ B →
+    ∀ (os : List HOp) (n : Nat) (db : Db) (q : Q), QInv K k kind n db q.mem τ → q.stale = false → n + htotal os ≤ B →
       hrun cls kind k db q os = specHRun cls kind q.mem os
-  | [], _, _, _, _, _ => rfl
-  | o :: os, n, db, q, hq, hw => by
+  | [], _, _, _, _, _, _ => rfl
+  | o :: os, n, db, q, hq, hst, hw => by
     simp only [htotal] at hw
-    obtain ⟨db', q', h1, h2, h3⟩ := hstep_refines cls hinj hk hE hB hvk hq o (by omega)
-    have ih := hrun_refines hinj hk hE hB hvk os _ db' q' h3 (by omega)
+    obtain ⟨db', q', h1, h2, h3⟩ := hstep_refines cls hinj hk hE hB hvk hq hst o (by omega)
+    have hst' : q'.stale = false := by have := hstep_stale cls kind k db q o hst; rw [h1] at this; exact this
+    have ih := hrun_refines hinj hk hE hB hvk os _ db' q' h3 hst' (by omega)
     have hd : durable db' k = .ok q'.mem := by
       rw [durable, getIoVals_spec h3.rel.inv (h3.rel.noChild hE hB (by omega)), h3.mirror]
     simp only [hrun, h1, specHRun, hd, ih, h2]
@@ -408,13 +500,15 @@ def hfinal (kind : QKind) (k : Bytes) : Db → Q → List HOp → Db × Q
 theorem hfinal_inv {kind : QKind} (hinj : kind = .dusq → ∀ a b, cls a = cls b → a = b)
     {K : Bytes → Prop} {k : Bytes} (hk : K k) {B : Nat} (hE : ExactAt K k B) (hB : B < 16 ^ W) (hvk : validKey (suffix k 0) = true)
     {τ : St} :
-    ∀ (os : List HOp) (n : Nat) (db : Db) (q : Q), QInv K k kind n db q.mem τ → n + htotal os ≤ B →
-      QInv K k kind (n + htotal os) (hfinal cls kind k db q os).1 (hfinal cls kind k db q os).2.mem τ
-  | [], _, _, _, hq, _ => hq
-  | o :: os, n, db, q, hq, hw => by
+    ∀ (os : List HOp) (n : Nat) (db : Db) (q : Q), QInv K k kind n db q.mem τ → q.stale = false → n + htotal os ≤ B →
+      QInv K k kind (n + htotal os) (hfinal cls kind k db q os).1 (hfinal cls kind k db q os).2.mem τ ∧
+        (hfinal cls kind k db q os).2.stale = false
+  | [], _, _, _, hq, hst, _ => ⟨hq, hst⟩
+  | o :: os, n, db, q, hq, hst, hw => by
     simp only [htotal] at hw
-    obtain ⟨db', q', h1, _, h3⟩ := hstep_refines cls hinj hk hE hB hvk hq o (by omega)
-    have ih := hfinal_inv hinj hk hE hB hvk os _ db' q' h3 (by omega)
+    obtain ⟨db', q', h1, _, h3⟩ := hstep_refines cls hinj hk hE hB hvk hq hst o (by omega)
+    have hst' : q'.stale = false := by have := hstep_stale cls kind k db q o hst; rw [h1] at this; exact this
+    have ih := hfinal_inv hinj hk hE hB hvk os _ db' q' h3 hst' (by omega)
     simp only [hfinal, h1, htotal]
     rw [← Nat.add_assoc]; exact ih
 
@@ -430,8 +524,14 @@ theorem specQ_no_hier (kind : QKind) (l : List Bytes) (o : HOp) : (specQ cls kin
   cases o with
   | reopen => simp [specQ]
   | op o =>
-    cases o <;> cases kind <;> simp [specQ]
-    all_goals (cases l <;> simp <;> split <;> simp)
+    cases o with
+    | pull e => cases l <;> simp [specQ] <;> split <;> simp
+    | sync f => cases f <;> simp [specQ]
+    | push v => cases kind <;> simp [specQ]
+    | extend vs => cases kind <;> simp [specQ]
+    | clear => simp [specQ]
+    | remove v => cases kind <;> simp [specQ]
+    | count v => cases kind <;> simp [specQ]
 
 theorem specHRun_no_hier (kind : QKind) : ∀ (os : List HOp) (l : List Bytes), ∀ x ∈ specHRun cls kind l os, x.1 ≠ .raise .hierError
   | [], _, x, hx => by simp [specHRun] at hx
@@ -443,90 +543,106 @@ theorem specHRun_no_hier (kind : QKind) : ∀ (os : List HOp) (l : List Bytes), 
 
 /-! ## several queues in one store -/
 
-/-- the specification: independent FIFO queues / ordered sets, one per key; reopen is the identity -/
-def specM (kind : QKind) (σ : St) : MOp → St × QRes
+/-- the specification: independent FIFO queues / ordered sets, one per key.  Reopen with preloads: at every key of the
+Hold a non-empty content stays, an empty one takes the preload; a rejected call is the identity. -/
+def specM (kind : QKind) (keys : List Bytes) (σ : St) : MOp → St × QRes
   | .q k o => (upd σ k (specQ cls kind (σ k) (.op o)).1, (specQ cls kind (σ k) (.op o)).2)
   | .a k o => match validate o with
     | .ok qo => (upd σ k (specQ cls kind (σ k) (.op qo)).1, (specQ cls kind (σ k) (.op qo)).2)
     | .error r => (σ, r)          -- a rejected call is the identity of the specification
-  | .reopen => (σ, .bool true)
+  | .reopen pre => (fun k => if k ∈ keys then (if σ k = [] then initS kind (pre k) else σ k) else σ k, .bool true)
 
 def specMRun (kind : QKind) (keys : List Bytes) : St → List MOp → List (QRes × List (List Bytes × Except Exn (List Bytes)))
   | _, [] => []
-  | σ, o :: os => ((specM cls kind σ o).2, keys.map (fun k => ((specM cls kind σ o).1 k, .ok ((specM cls kind σ o).1 k)))) ::
-      specMRun kind keys (specM cls kind σ o).1 os
+  | σ, o :: os => ((specM cls kind keys σ o).2, keys.map (fun k => ((specM cls kind keys σ o).1 k, .ok ((specM cls kind keys σ o).1 k)))) ::
+      specMRun kind keys (specM cls kind keys σ o).1 os
 
-def mweight : MOp → Nat
+def preWeight (pre : Bytes → List Bytes) : List Bytes → Nat
+  | [] => 0
+  | k :: ks => (pre k).length + preWeight pre ks
+
+def mweight (keys : List Bytes) : MOp → Nat
   | .q _ o => hweight (.op o)
   | .a _ o => match validate o with
     | .ok qo => hweight (.op qo)
     | .error _ => 0
-  | .reopen => 0
+  | .reopen pre => preWeight pre keys
 
 def mkey : MOp → Option Bytes
   | .q k _ | .a k _ => some k
-  | .reopen => none
+  | .reopen _ => none
 
-def mtotal : List MOp → Nat
+def mtotal (keys : List Bytes) : List MOp → Nat
   | [] => 0
-  | o :: os => mweight o + mtotal os
+  | o :: os => mweight keys o + mtotal keys os
 
 structure MInv (K : Bytes → Prop) (kind : QKind) (keys : List Bytes) (n : Nat) (db : Db) (ms : MS) : Prop where
   rel : Rel K n db (absIo db)
-  each : ∀ k ∈ keys, absIo db k = (ms k).mem ∧ (kind = .dusq → (ms k).mem.Nodup)
+  each : ∀ k ∈ keys, absIo db k = (ms k).mem ∧ (kind = .dusq → (ms k).mem.Nodup) ∧ (ms k).stale = false
 
 theorem injectAll_spec {kind : QKind} (hinj : kind = .dusq → ∀ a b, cls a = cls b → a = b)
     {K : Bytes → Prop} {B : Nat} (hG : ∀ k, K k → ExactAt K k B) (hB : B < 16 ^ W) (hvk : ∀ k, K k → validKey (suffix k 0) = true)
-    (keys : List Bytes) (hkeys : ∀ k ∈ keys, K k) {n : Nat} (hn : n ≤ B) :
-    ∀ (ks : List Bytes), (∀ k ∈ ks, k ∈ keys) → ∀ (db : Db) (ms : MS), MInv K kind keys n db ms →
-      ∃ db' ms', injectAll cls kind ks db ms = (db', ms', none) ∧ MInv K kind keys n db' ms' ∧ ∀ k, (ms' k).mem = (ms k).mem
-  | [], _, db, ms, hm => ⟨db, ms, rfl, hm, fun _ => rfl⟩
-  | k :: ks, hks, db, ms, hm => by
+    (keys : List Bytes) (hkeys : ∀ k ∈ keys, K k) (pre : Bytes → List Bytes) :
+    ∀ (ks : List Bytes), ks.Nodup → (∀ k ∈ ks, k ∈ keys) → ∀ (n : Nat) (db : Db) (ms : MS), MInv K kind keys n db ms →
+      n + preWeight pre ks ≤ B →
+      ∃ db' ms', injectAll cls kind pre ks db ms = (db', ms', none) ∧ MInv K kind keys (n + preWeight pre ks) db' ms' ∧
+        ∀ k, (ms' k).mem = if k ∈ ks then (if (ms k).mem = [] then initS kind (pre k) else (ms k).mem) else (ms k).mem
+  | [], _, _, n, db, ms, hm, _ => ⟨db, ms, rfl, hm, fun _ => by simp⟩
+  | k :: ks, hnd, hks, n, db, ms, hm, hw => by
     have hkm := hks k (List.mem_cons_self ..)
     have hk := hkeys k hkm
-    have hq : QInv K k kind n db (ms k).mem (absIo db) := ⟨hm.rel, (hm.each k hkm).1, (hm.each k hkm).2, fun _ _ => rfl⟩
-    obtain ⟨db', q', h1, h2, h3⟩ := hstep_refines cls hinj hk (hG k hk) hB (hvk k hk) hq .reopen (by simpa [hweight] using hn)
-    have hinjq : inject cls kind k db = (db', .ok q') := by
+    have hnd' := List.nodup_cons.mp hnd
+    simp only [preWeight] at hw
+    have hq : QInv K k kind n db (ms k).mem (absIo db) := ⟨hm.rel, (hm.each k hkm).1, (hm.each k hkm).2.1, fun _ _ => rfl⟩
+    obtain ⟨db', q', h1, h2, h3⟩ := hstep_refines cls hinj hk (hG k hk) hB (hvk k hk) hq (hm.each k hkm).2.2 (.reopen (pre k))
+      (by simp only [hweight]; omega)
+    have hst' : q'.stale = false := by
+      have := hstep_stale cls kind k db (ms k) (.reopen (pre k)) (hm.each k hkm).2.2; rw [h1] at this; exact this
+    have hinjq : inject cls kind k db (pre k) = (db', .ok q') := by
       simp only [hstep] at h1
-      cases hi : inject cls kind k db with
+      cases hi : inject cls kind k db (pre k) with
       | mk d r =>
         rw [hi] at h1
         cases r with
         | error x => simp [specQ] at h1
         | ok q0 => simp only [Prod.mk.injEq] at h1; rw [h1.1, h1.2.1]
-    have hmem : q'.mem = (ms k).mem := by rw [h2]; rfl
-    have hm' : MInv K kind keys n db' (setQ ms k q') := by
+    have hmem : q'.mem = if (ms k).mem = [] then initS kind (pre k) else (ms k).mem := by rw [h2]; rfl
+    have hm' : MInv K kind keys (n + (pre k).length) db' (setQ ms k q') := by
       refine ⟨h3.rel, ?_⟩
       intro k2 hk2
       by_cases e : k2 = k
-      · subst e; simp only [setQ, ↓reduceIte]; exact ⟨h3.mirror, h3.nodup⟩
+      · subst e; simp only [setQ, ↓reduceIte]; exact ⟨h3.mirror, h3.nodup, hst'⟩
       · simp only [setQ, e, ↓reduceIte]
         rw [h3.others k2 e]; exact hm.each k2 hk2
-    obtain ⟨db'', ms'', h4, h5, h6⟩ := injectAll_spec hinj hG hB hvk keys hkeys hn ks
-      (fun k2 hk2 => hks k2 (List.mem_cons_of_mem _ hk2)) db' (setQ ms k q') hm'
-    refine ⟨db'', ms'', by simp only [injectAll, hinjq, h4], h5, ?_⟩
-    intro k2
-    rw [h6 k2]
-    by_cases e : k2 = k
-    · subst e; simp [setQ, hmem]
-    · simp [setQ, e]
+    obtain ⟨db'', ms'', h4, h5, h6⟩ := injectAll_spec hinj hG hB hvk keys hkeys pre ks hnd'.2
+      (fun k2 hk2 => hks k2 (List.mem_cons_of_mem _ hk2)) _ db' (setQ ms k q') hm' (by omega)
+    refine ⟨db'', ms'', by simp only [injectAll, hinjq, h4], ?_, ?_⟩
+    · simp only [preWeight]; rw [← Nat.add_assoc]; exact h5
+    · intro k2
+      rw [h6 k2]
+      by_cases e : k2 = k
+      · subst e
+        simp [setQ, hnd'.1, hmem]
+      · simp [setQ, e]
 
 theorem mstep_refines_q {kind : QKind} (hinj : kind = .dusq → ∀ a b, cls a = cls b → a = b)
     {K : Bytes → Prop} {B : Nat} (hG : ∀ k, K k → ExactAt K k B) (hB : B < 16 ^ W) (hvk : ∀ k, K k → validKey (suffix k 0) = true)
     (keys : List Bytes) (hkeys : ∀ k ∈ keys, K k) {n : Nat} {db : Db} {ms : MS} (hm : MInv K kind keys n db ms)
     {σ : St} (hσ : ∀ k ∈ keys, σ k = (ms k).mem) (k : Bytes) (qo : QOp) (hkm : k ∈ keys) (hw : n + hweight (.op qo) ≤ B) :
-    (mstep cls kind keys db ms (.q k qo)).2.2 = (specM cls kind σ (.q k qo)).2 ∧
+    (mstep cls kind keys db ms (.q k qo)).2.2 = (specM cls kind keys σ (.q k qo)).2 ∧
     MInv K kind keys (n + hweight (.op qo)) (mstep cls kind keys db ms (.q k qo)).1 (mstep cls kind keys db ms (.q k qo)).2.1 ∧
-    ∀ k2 ∈ keys, (specM cls kind σ (.q k qo)).1 k2 = ((mstep cls kind keys db ms (.q k qo)).2.1 k2).mem := by
+    ∀ k2 ∈ keys, (specM cls kind keys σ (.q k qo)).1 k2 = ((mstep cls kind keys db ms (.q k qo)).2.1 k2).mem := by
   have hk := hkeys k hkm
-  have hq : QInv K k kind n db (ms k).mem (absIo db) := ⟨hm.rel, (hm.each k hkm).1, (hm.each k hkm).2, fun _ _ => rfl⟩
-  obtain ⟨db', q', h1, h2, h3⟩ := hstep_refines cls hinj hk (hG k hk) hB (hvk k hk) hq (.op qo) hw
+  have hq : QInv K k kind n db (ms k).mem (absIo db) := ⟨hm.rel, (hm.each k hkm).1, (hm.each k hkm).2.1, fun _ _ => rfl⟩
+  obtain ⟨db', q', h1, h2, h3⟩ := hstep_refines cls hinj hk (hG k hk) hB (hvk k hk) hq (hm.each k hkm).2.2 (.op qo) hw
+  have hst' : q'.stale = false := by
+    have := hstep_stale cls kind k db (ms k) (.op qo) (hm.each k hkm).2.2; rw [h1] at this; exact this
   simp only [hstep] at h1
   simp only [mstep, h1, specM, hσ k hkm]
   refine ⟨trivial, ⟨h3.rel, ?_⟩, ?_⟩
   · intro k2 hk2
     by_cases e : k2 = k
-    · subst e; simp only [setQ, ↓reduceIte]; exact ⟨h3.mirror, h3.nodup⟩
+    · subst e; simp only [setQ, ↓reduceIte]; exact ⟨h3.mirror, h3.nodup, hst'⟩
     · simp only [setQ, e, ↓reduceIte]
       rw [h3.others k2 e]; exact hm.each k2 hk2
   · intro k2 hk2
@@ -541,17 +657,17 @@ theorem mstep_rejected (kind : QKind) (keys : List Bytes) (db : Db) (ms : MS) (k
 
 theorem mstep_refines {kind : QKind} (hinj : kind = .dusq → ∀ a b, cls a = cls b → a = b)
     {K : Bytes → Prop} {B : Nat} (hG : ∀ k, K k → ExactAt K k B) (hB : B < 16 ^ W) (hvk : ∀ k, K k → validKey (suffix k 0) = true)
-    (keys : List Bytes) (hkeys : ∀ k ∈ keys, K k) {n : Nat} {db : Db} {ms : MS} (hm : MInv K kind keys n db ms)
-    {σ : St} (hσ : ∀ k ∈ keys, σ k = (ms k).mem) (o : MOp) (ho : ∀ k, mkey o = some k → k ∈ keys) (hw : n + mweight o ≤ B) :
-    (mstep cls kind keys db ms o).2.2 = (specM cls kind σ o).2 ∧
-    MInv K kind keys (n + mweight o) (mstep cls kind keys db ms o).1 (mstep cls kind keys db ms o).2.1 ∧
-    ∀ k ∈ keys, (specM cls kind σ o).1 k = ((mstep cls kind keys db ms o).2.1 k).mem := by
+    (keys : List Bytes) (hnd : keys.Nodup) (hkeys : ∀ k ∈ keys, K k) {n : Nat} {db : Db} {ms : MS} (hm : MInv K kind keys n db ms)
+    {σ : St} (hσ : ∀ k ∈ keys, σ k = (ms k).mem) (o : MOp) (ho : ∀ k, mkey o = some k → k ∈ keys) (hw : n + mweight keys o ≤ B) :
+    (mstep cls kind keys db ms o).2.2 = (specM cls kind keys σ o).2 ∧
+    MInv K kind keys (n + mweight keys o) (mstep cls kind keys db ms o).1 (mstep cls kind keys db ms o).2.1 ∧
+    ∀ k ∈ keys, (specM cls kind keys σ o).1 k = ((mstep cls kind keys db ms o).2.1 k).mem := by
   cases o with
-  | reopen =>
-    obtain ⟨db', ms', h1, h2, h3⟩ := injectAll_spec cls hinj hG hB hvk keys hkeys (by simpa [mweight] using hw) keys
-      (fun _ h => h) db ms hm
-    simp only [mstep, h1, specM]
-    exact ⟨trivial, h2, fun k hk => by rw [h3 k]; exact hσ k hk⟩
+  | reopen pre =>
+    obtain ⟨db', ms', h1, h2, h3⟩ := injectAll_spec cls hinj hG hB hvk keys hkeys pre keys hnd (fun _ h => h) n db ms hm
+      (by simpa [mweight] using hw)
+    simp only [mstep, h1, specM, mweight]
+    exact ⟨trivial, h2, fun k hk => by rw [h3 k]; simp [hk, hσ k hk]⟩
   | q k qo => exact mstep_refines_q cls hinj hG hB hvk keys hkeys hm hσ k qo (ho k rfl) hw
   | a k ao =>
     cases hv : validate ao with
@@ -566,15 +682,15 @@ theorem mstep_refines {kind : QKind} (hinj : kind = .dusq → ∀ a b, cls a = c
 
 theorem mrun_refines {kind : QKind} (hinj : kind = .dusq → ∀ a b, cls a = cls b → a = b)
     {K : Bytes → Prop} {B : Nat} (hG : ∀ k, K k → ExactAt K k B) (hB : B < 16 ^ W) (hvk : ∀ k, K k → validKey (suffix k 0) = true)
-    (keys : List Bytes) (hkeys : ∀ k ∈ keys, K k) :
+    (keys : List Bytes) (hnd : keys.Nodup) (hkeys : ∀ k ∈ keys, K k) :
     ∀ (os : List MOp) (n : Nat) (db : Db) (ms : MS) (σ : St), MInv K kind keys n db ms → (∀ k ∈ keys, σ k = (ms k).mem) →
-      (∀ o ∈ os, ∀ k, mkey o = some k → k ∈ keys) → n + mtotal os ≤ B →
+      (∀ o ∈ os, ∀ k, mkey o = some k → k ∈ keys) → n + mtotal keys os ≤ B →
       mrun cls kind keys db ms os = specMRun cls kind keys σ os
   | [], _, _, _, _, _, _, _, _ => rfl
   | o :: os, n, db, ms, σ, hm, hσ, hos, hw => by
     simp only [mtotal] at hw
-    obtain ⟨h1, h2, h3⟩ := mstep_refines cls hinj hG hB hvk keys hkeys hm hσ o (hos o (List.mem_cons_self ..)) (by omega)
-    have ih := mrun_refines hinj hG hB hvk keys hkeys os _ _ _ _ h2 h3
+    obtain ⟨h1, h2, h3⟩ := mstep_refines cls hinj hG hB hvk keys hnd hkeys hm hσ o (hos o (List.mem_cons_self ..)) (by omega)
+    have ih := mrun_refines hinj hG hB hvk keys hnd hkeys os _ _ _ _ h2 h3
       (fun o' ho' => hos o' (List.mem_cons_of_mem _ ho')) (by omega)
     simp only [mrun, specMRun, h1, ih]
     congr 2
